@@ -677,12 +677,11 @@ func (x *Exec) safeNonNil(fr *Frame, st *State, p PtrV, pos token.Pos, what stri
 	if p.Cell != nil {
 		return
 	}
-	if x.sweep && fr.depth == 0 {
-		if !strings.HasPrefix(p.Ref, "ref.") && !strings.HasPrefix(p.Ref, "|ref.") && !strings.HasPrefix(p.Ref, "(") {
-			x.safe(fr, st, Not(Eq(p.Ref, NilRef)), "nil", pos, "nil dereference ("+what+")")
-		}
+	constructed := strings.HasPrefix(p.Ref, "(base ") || strings.HasPrefix(p.Ref, "(fld ") || strings.HasPrefix(p.Ref, "(elem ")
+	if x.sweep && fr.depth == 0 && !constructed {
+		x.safe(fr, st, Not(Eq(p.Ref, NilRef)), "nil", pos, "nil dereference ("+what+")")
 	}
-	if !strings.HasPrefix(p.Ref, "(") {
+	if !constructed {
 		x.assumeAt(st, Not(Eq(p.Ref, NilRef)))
 	}
 }
